@@ -296,6 +296,76 @@ def run(ctx):
                                 bad = 'row %d of the product is not sum_c M[c][%d]*v[c]%s' % (rr, rr, ' + translation' if affine and point else '')
                                 break
                 done('R-ALG', name, bad, it)
+        # associated constants ZERO / IDENTITY / NAN of the matrix and affine types, entry by entry
+        Ic = H.new_interp()
+        n_const = 0
+        for path, k in sorted(F.konsts.items()):
+            if k['name'] not in ('ZERO', 'IDENTITY', 'NAN'):
+                continue
+            tyid = None
+            for i_, t_ in F.types.items():
+                if t_['n'] == k['self_ty']:
+                    tyid = i_
+                    break
+            mi = M.info(tyid) if tyid is not None else None
+            if mi is None:
+                continue
+            n_const += 1
+            try:
+                val = Ic.eval_const(k['v'])
+            except Exception as e_:
+                ctx.unverifiable('R-CONST', cfg, path, 'constant not decodable: %r' % (e_,))
+                continue
+            ent = M.entries(val, tyid)
+            bad = None
+            if ent is None:
+                bad = 'constant is not a matrix value'
+            else:
+                lin = mi['cols'] if mi['cols'] == mi['rows'] else mi['cols'] - 1
+                for (c, rr), t_ in sorted(ent.items()):
+                    if not tm.is_const(t_):
+                        bad = 'entry (col %d,row %d) is not a constant' % (c, rr)
+                        break
+                    f = tm.f_of(t_)
+                    if k['name'] == 'NAN':
+                        ok_ = f != f
+                    elif k['name'] == 'ZERO':
+                        ok_ = f == 0.0
+                    else:
+                        ok_ = f == (1.0 if (c == rr and c < lin) else 0.0)
+                    if not ok_:
+                        bad = 'entry (col %d,row %d) of %s is %r' % (c, rr, k['name'], f)
+                        break
+            if bad:
+                ctx.violation('R-CONST', cfg, path, {'problem': bad})
+            else:
+                ctx.holds('R-CONST', cfg, path)
+        ctx.floor('matrix / affine constants (%s)' % cfg, n_const, 33)
+        # free-function constructors mat2(..) .. dmat4(..): column c of the result is argument c
+        for name, it in api_roots(F):
+            if it.get('trait') or it.get('self_ty') or (it.get('name') or '') not in ('mat2', 'mat3', 'mat3a', 'mat4', 'dmat2', 'dmat3', 'dmat4'):
+                continue
+            body = F.body(it['key'])
+            if body is None:
+                continue
+            rty = body['locals'][0]
+            mi = M.info(rty)
+            r = H.run(it['key'])
+            bad = r.abort
+            if not bad:
+                ent = M.entries(r.ret, rty) if mi else None
+                if ent is None or body['argc'] != mi['cols']:
+                    bad = 'result is not a matrix built from one argument per column'
+                else:
+                    for c in range(mi['cols']):
+                        v = M.vec_arg(r, c, body['locals'][1 + c])
+                        for rr in range(mi['rows']):
+                            if v is None or ent[(c, rr)] is not v[rr]:
+                                bad = 'entry (col %d,row %d) is not element %d of argument %d' % (c, rr, rr, c)
+                                break
+                        if bad:
+                            break
+            done('R-COPY', name, bad, it)
         # (A*B)*v = A*(B*v): every matrix/affine product operator yields the homogeneous matrix product of its operands
         from spec import Spec
         from C05 import embed
